@@ -50,7 +50,31 @@ func handlerInstalls(p *load.Program) []handlerInstall {
 					return
 				}
 			}
-			key, _ := kit.ConstString(mu.Key)
+			key, isConst := kit.ConstString(mu.Key)
+			if !isConst {
+				// `for command, handler := range literal { n.handlers[command] = handler }`: the
+				// installs are the entries of the literal
+				if ke, ok := mu.Key.(*ssa.Extract); ok && ke.Index == 1 {
+					if nx, ok := ke.Tuple.(*ssa.Next); ok {
+						if rg, ok := nx.Iter.(*ssa.Range); ok {
+							if mk, ok := kit.Strip(rg.X).(*ssa.MakeMap); ok {
+								n := 0
+								for _, ref := range *mk.Referrers() {
+									if lu, ok := ref.(*ssa.MapUpdate); ok && lu.Map == ssa.Value(mk) {
+										if k2, isC := kit.ConstString(lu.Key); isC {
+											out = append(out, handlerInstall{mu, f, k2, kit.FuncValueTarget(lu.Value)})
+											n++
+										}
+									}
+								}
+								if n > 0 {
+									return
+								}
+							}
+						}
+					}
+				}
+			}
 			out = append(out, handlerInstall{mu, f, key, kit.FuncValueTarget(mu.Value)})
 		})
 	}
